@@ -12,7 +12,7 @@ CLASSES = {0: "other", 1: "ptr-struct", 2: "slice", 3: "string-slice", 4: "ptr-s
 RELEVANT = {
     "C09": {"KErrMissing", "KErrSpurious", "KConsumed", "KPanic", "KLeak", "KOp", "KCanary", "KSpecLeak"},
     "C10": {"KSame", "KOver", "KShape", "KNonStr", "KType", "KMeta", "KMutated", "KAliased", "KUnexp", "KSpecShape", "KPanic"},
-    "C16": {"CKTriple", "CKFrame", "CKRoundTrip", "CKHmac", "CKDeterminism", "CKErr", "CKConsumed", "CKPanic", "CKState", "CKAtomic"},
+    "C16": {"CKTriple", "CKFrame", "CKRoundTrip", "CKHmac", "CKDeterminism", "CKErr", "CKConsumed", "CKPanic", "CKState", "CKAtomic", "CKCallerSlice"},
 }
 WHAT = {
     "KErrMissing": "a step of the filter fails in the model (missing / failing wrapper, bad tag pointer, unsettable payload) but the implementation forwarded an event",
@@ -41,6 +41,7 @@ WHAT = {
     "CKErr": "error / no error differs from the model (missing wrapper, empty event id)",
     "CKConsumed": "a rotation payload was not consumed",
     "CKPanic": "the filter panicked",
+    "CKCallerSlice": "a rotation wrote into a salt / info slice owned by the caller (the slice a filter was configured with): other filters built from it change too",
     "CKAtomic": "a value produced while the filter was rotated mixes components of different key generations",
 }
 
@@ -64,7 +65,7 @@ ASSUMPTIONS = {
             "a zero / nil payload with a missing wrapper and an encrypting configuration yields an error, not the same event (the wrapper check comes first)"],
     "C16": ["AEAD (AES-GCM of go-kms-wrapping), wrapper derivation, HKDF and HMAC-SHA256 are Section functions with the hypotheses dec k (enc k n m) = Some m; determinism is functionality",
             "each encrypt()/hmacSha256() call, each Rotate / rotation payload and the head of Process of an event with per-event wrapper info (wrapper derivation + resolution of its salt / info) is one atomic step: they run under Filter.l",
-            "the harness re-implements HKDF, HMAC framing, the per-event key derivation, the BlobInfo wire format and AES-GCM open independently of the library"],
+            "Filter.Rotate(WithSalt(s)) and the exported HmacSalt / HmacInfo fields keep the caller's slice (the unmutated library does; neither C16 nor C19 forbids it): only a write of the LIBRARY into such a slice is reported (CKCallerSlice), and filters configured from one slice are each judged against their own history", "the harness re-implements HKDF, HMAC framing, the per-event key derivation, the BlobInfo wire format and AES-GCM open independently of the library"],
 }
 _NOTE = ("Trusted: Coq 8.16.1 kernel + vm_compute; no axioms (Print Assumptions: closed under the global context); the Go correspondence harness encrypth: "
          "its Go type/value builder (reflect.StructOf/MapOf/SliceOf + hand-written Taggable / unexported-field / payload-interface types), its projection of Go values to "
@@ -243,14 +244,28 @@ def concurrent_rotation_part(ctx):
     "encrypt:CKAtomic@concurrent-rotation" to ctx.violations and its counts to ctx.coverage["parts"]; used by C19."""
     part = {}
     ctx.coverage["parts"]["encrypt-concurrent-rotation"] = part
-    binp = _build(ctx)
+    # with the race detector when the toolchain can build it (cgo): a rotation that writes into a salt / info slice shared
+    # with another filter is then also reported as a data race with that filter's reads
+    binp, bout = V.go_build(ctx, "./cmd/encrypth", race=True)
+    part["race_detector"] = bool(binp)
     if not binp:
-        return
+        binp = _build(ctx)
+        if not binp:
+            return
     cdir = os.path.join(ctx.work, "encrypt-conc")
     os.makedirs(cdir, exist_ok=True)
     rc, out = V.run([binp, "-crypto", "-crypto-conc-only", "-crypto-histories", "0", "-out", cdir, "-prefix", "cases"],
-                    env=dict(os.environ, VERIF_SEED=str(ctx.seed)), timeout=900)
+                    env=dict(os.environ, VERIF_SEED=str(ctx.seed), GORACE="exitcode=0 halt_on_error=0"), timeout=900)
     ctx.log(out.strip()[-300:])
+    if "WARNING: DATA RACE" in out:
+        report = out[out.index("WARNING: DATA RACE"):][:3500]
+        rp = V.write_replay(ctx, "encrypt-race@concurrent-rotation", {
+            "kind": "search", "engine": "encrypth", "mode": "crypto", "signature": "race@concurrent-rotation",
+            "what": "the race detector reports a data race while encrypt.Filter values are rotated and used concurrently", "race_report": report,
+            "repro": "go build -race ./cmd/encrypth && encrypth -crypto -crypto-conc-only"})
+        ctx.violations.append({"match": "encrypt:race@concurrent-rotation", "replay": rp,
+                               "what": "%s: data race under concurrent rotation of encrypt.Filter (first report: %s)" % (ctx.prop, " ".join(report.split()[:24]))})
+        part["data_races_reported"] = out.count("WARNING: DATA RACE")
     if rc != 0:
         rp = V.write_replay(ctx, "harness-run-conc", {"kind": "correspondence", "output": out[-4000:]})
         ctx.violations.append({"match": "harness-crash", "replay": rp, "what": "encrypth -crypto-conc-only crashed", "no_input": True})
